@@ -162,6 +162,45 @@ func main() {
 	fmt.Println(s[0:j])
 }
 `,
+		// F44 methods called on nil struct references
+		`package main
+
+import "fmt"
+
+type Node struct {
+	V    int
+	Next *Node
+}
+
+func (n *Node) Len() int {
+	if n == nil {
+		return 0
+	}
+	return 1 + n.Next.Len()
+}
+
+func (n *Node) Hello() string {
+	return "hello"
+}
+
+func (n *Node) Sum() int {
+	s := 0
+	for n != nil {
+		s += n.V
+		n = n.Next
+	}
+	return s
+}
+
+func main() {
+	var p *Node
+	fmt.Println(p.Len(), p.Hello(), p.Sum())
+	l := &Node{V: 1, Next: &Node{V: 2}}
+	fmt.Println(l.Len(), l.Sum(), l.Next.Next.Len(), l.Next.Next.Hello())
+	f := p.Len
+	fmt.Println(f())
+}
+`,
 	}
 	var res []*gen.Program
 	for i, src := range srcs {
